@@ -33,6 +33,9 @@ pub struct Case {
     pub level: Level,
     pub explicit_out: bool,
     pub scenario: Scenario,
+    /// files of other (longer) content already sit where the archive and the restored file go
+    #[serde(default)]
+    pub stale_outputs: bool,
 }
 
 static COUNTER: AtomicU64 = AtomicU64::new(0);
@@ -99,8 +102,12 @@ pub fn check(case: &Case, ctx: &mut CaseCtx) -> CaseResult {
         args.push(&level_s);
     }
     let implemented = matches!(case.level, Level::Absent | Level::L(0) | Level::L(1));
-    let r = run(&dir, &args)?;
     let zst_path = dir.join(&zst_name);
+    let stale = case.stale_outputs && case.scenario == Scenario::RoundTrip && implemented;
+    if stale {
+        std::fs::write(&zst_path, vec![0xEEu8; data.len() + 1000]).map_err(|e| Failure::new("machinery", format!("{e}")))?;
+    }
+    let r = run(&dir, &args)?;
     ctx.feat(match case.level {
         Level::Absent => "level:absent",
         Level::L(0) => "level:0",
@@ -163,8 +170,12 @@ pub fn check(case: &Case, ctx: &mut CaseCtx) -> CaseResult {
     if explicit_restore {
         dargs.push("restored.out");
     }
-    let r2 = run(&dir, &dargs)?;
     let restored_path = dir.join(if explicit_restore { "restored.out".to_string() } else { restored_name });
+    if stale {
+        std::fs::write(&restored_path, vec![0xDDu8; data.len() + 777]).map_err(|e| Failure::new("machinery", format!("{e}")))?;
+        ctx.feat("paths:stale_longer_files_at_both_destinations");
+    }
+    let r2 = run(&dir, &dargs)?;
     match case.scenario {
         Scenario::RoundTrip => {
             ensure!(r2.code == Some(0), "decompress_failed", "decompress of a fresh archive fails with status {:?}: {}", r2.code, tail(&r2.stderr));
@@ -202,14 +213,14 @@ fn case_strategy(tier: Tier) -> impl Strategy<Value = Case> {
         1 => Just(Scenario::GarbageArchive),
         2 => any::<u16>().prop_map(Scenario::TruncatedArchive),
     ];
-    (data_strategy(max), 0u8..=5, level, any::<bool>(), scenario).prop_map(|(data, name, level, explicit_out, scenario)| Case { data, name, level, explicit_out, scenario })
+    (data_strategy(max), 0u8..=5, level, any::<bool>(), scenario, prop::bool::weighted(0.3)).prop_map(|(data, name, level, explicit_out, scenario, stale_outputs)| Case { data, name, level, explicit_out, scenario, stale_outputs })
 }
 
 pub fn run_check(eng: &Engine) {
-    eng.set_rule("the real ruzstd-cli binary in a private directory: file contents from the data generator (0 B .. 1 MiB quick / 8 MiB thorough; names with dots, spaces, no extension) x level option {absent, -l 0, -l 1, -l 2..4 (unimplemented), -l 9, -l 255} x explicit / defaulted output paths x scenarios {round trip, missing input, output directory missing, garbage archive, truncated archive}; oracle: implemented levels and no level given: exit 0, archive decodes with libzstd to the original, decompress exit 0, restored file identical; operations that cannot be carried out: non-zero exit status and not (panic AND an output file left behind); never exit 0 with a wrong or partial file; non-trivial = non-empty content and (no level given or content > 128 KiB); distinct by (content, options) hash");
+    eng.set_rule("the real ruzstd-cli binary in a private directory: file contents from the data generator (0 B .. 1 MiB quick / 8 MiB thorough; names with dots, spaces, no extension) x level option {absent, -l 0, -l 1, -l 2..4 (unimplemented), -l 9, -l 255} x explicit / defaulted output paths (optionally with stale, longer files already at both destinations) x scenarios {round trip, missing input, output directory missing, garbage archive, truncated archive}; oracle: implemented levels and no level given: exit 0, archive decodes with libzstd to the original, decompress exit 0, restored file identical; operations that cannot be carried out: non-zero exit status and not (panic AND an output file left behind); never exit 0 with a wrong or partial file; non-trivial = non-empty content and (no level given or content > 128 KiB); distinct by (content, options) hash");
     eng.assume("the sandbox runs as root, so permission bits cannot be used to make operations fail; a missing directory is used instead");
     let tier = eng.tier;
-    let n = eng.tier.pick(1_000, 12_000);
+    let n = eng.tier.pick(2_500, 20_000);
     eng.run_stage("cli_runs", n, || case_strategy(tier), check);
     let _ = std::fs::remove_dir_all(PathBuf::from(VERIF_ROOT).join("target/c19"));
 }
